@@ -10,7 +10,9 @@ import (
 // Prelude is the text a cases.v needs for the terms printed by B.
 const Prelude = "Notation h := bytes_of_hex.\n" +
 	"Inductive seg := S_ (s : string) | R_ (n : N) (s : string).\n" +
-	"Definition hx (l : list seg) : bytes := List.concat (List.map (fun g => match g with S_ s => bytes_of_hex s | R_ n s => N.iter n (fun a => List.app (bytes_of_hex s) a) nil end) l).\n"
+	"Definition hx (l : list seg) : bytes := List.concat (List.map (fun g => match g with S_ s => bytes_of_hex s | R_ n s => N.iter n (fun a => List.app (bytes_of_hex s) a) nil end) l).\n" +
+	"Fixpoint chunk16 (fuel : nat) (b : bytes) : list bytes := match fuel with O => nil | S f => match b with nil => nil | _ => List.firstn 16 b :: chunk16 f (List.skipn 16 b) end end.\n" +
+	"Definition ids (b : bytes) : list bytes := chunk16 (List.length b) b.\n"
 
 // cB prints a byte string. Short ones are one hex literal (h ".."). Long
 // ones are split into pieces (a single very long string literal overflows
@@ -74,3 +76,23 @@ func Fill(v byte, n int) []byte {
 	return b
 }
 
+
+// IDs prints a list of 16-byte identifiers as one blob cut into pieces by
+// [ids] (so that runs across identifiers are run-length encoded).
+func IDs(ids [][]byte) string {
+	if len(ids) <= 2 {
+		items := make([]string, len(ids))
+		for i, id := range ids {
+			items[i] = B(id)
+		}
+		if len(items) == 0 {
+			return "[]"
+		}
+		return "[" + strings.Join(items, "; ") + "]"
+	}
+	var blob []byte
+	for _, id := range ids {
+		blob = append(blob, id...)
+	}
+	return "(ids " + B(blob) + ")"
+}
